@@ -96,50 +96,62 @@ pub fn valid_statement(st: &Statement) -> bool {
     true
 }
 
-/// Remove the op at `at`, re-indexing table references.  None if something
-/// later refers to what it produced.
-pub fn remove_op(st: &Statement, at: At) -> Option<Statement> {
-    // table position of the op's outputs
+/// Remove a set of ops (a top-level `Randomized` op goes with its whole
+/// body), re-indexing table references.  None if something that stays refers
+/// to what they produced, or the result is not a valid program.
+pub fn remove_ops(st: &Statement, remove: &[At]) -> Option<Statement> {
+    let is_removed = |a: At| remove.iter().any(|r| *r == a || (r.1.is_none() && r.0 == a.0));
+    // table ranges produced by removed ops, in execution order
     let mut pos = 0usize;
-    let mut found = None;
+    let mut ranges: Vec<(usize, usize)> = vec![];
     for a in exec_order(st) {
         let k = op_outputs(get_op(st, a));
-        if a == at {
-            found = Some((pos, k));
-            break;
+        if k > 0 && is_removed(a) {
+            ranges.push((pos, k));
         }
         pos += k;
     }
     let mut s = st.clone();
-    match at.1 {
-        None => {
-            if matches!(s.ops[at.0], Op::Randomized(ref b) if !b.is_empty()) {
-                return None;
-            }
-            s.ops.remove(at.0);
+    // delete inner ops first (descending), then top-level ops (descending)
+    let mut inner: Vec<At> = remove.iter().cloned().filter(|a| a.1.is_some()).collect();
+    inner.sort();
+    inner.reverse();
+    for a in inner {
+        if remove.iter().any(|r| r.1.is_none() && r.0 == a.0) {
+            continue;
         }
-        Some(j) => {
-            if let Op::Randomized(b) = &mut s.ops[at.0] {
-                b.remove(j);
+        if let Op::Randomized(b) = &mut s.ops[a.0] {
+            if a.1.unwrap() < b.len() {
+                b.remove(a.1.unwrap());
             }
         }
     }
-    if let Some((p, k)) = found {
-        if k > 0 {
-            let bad = std::cell::Cell::new(false);
-            map_statement(&mut s, &|i| {
-                if i >= p && i < p + k {
+    let mut top: Vec<usize> = remove.iter().filter(|a| a.1.is_none()).map(|a| a.0).collect();
+    top.sort();
+    top.dedup();
+    top.reverse();
+    for i in top {
+        if i < s.ops.len() {
+            s.ops.remove(i);
+        }
+    }
+    if !ranges.is_empty() {
+        let bad = std::cell::Cell::new(false);
+        map_statement(&mut s, &|i| {
+            let mut shift = 0;
+            for (p, k) in &ranges {
+                if i >= *p && i < *p + *k {
                     bad.set(true);
-                    i
-                } else if i >= p + k {
-                    i - k
-                } else {
-                    i
+                    return i;
                 }
-            });
-            if bad.get() {
-                return None;
+                if i >= *p + *k {
+                    shift += *k;
+                }
             }
+            i - shift
+        });
+        if bad.get() {
+            return None;
         }
     }
     if valid_statement(&s) {
@@ -147,6 +159,10 @@ pub fn remove_op(st: &Statement, at: At) -> Option<Statement> {
     } else {
         None
     }
+}
+
+pub fn remove_op(st: &Statement, at: At) -> Option<Statement> {
+    remove_ops(st, &[at])
 }
 
 fn simpler_scalars(s: &S) -> Vec<S> {
@@ -261,25 +277,47 @@ fn op_variants(op: &Op) -> Vec<Op> {
     v
 }
 
-/// Candidate simplifications of a statement, simplest-first.  Each comes with
-/// the top-level index map (old top-level index -> new, None if removed) so
-/// that faults addressed by position can follow.
+/// Candidate simplifications of a statement, biggest deletions first
+/// (delta-debugging style chunks of top-level ops, then single ops, then
+/// context, then per-op simplifications).  Bounded: at most ~250 candidates
+/// per round however long the program is.  The second component names a
+/// single removed position (so that faults addressed by position can follow);
+/// chunk deletions report None and are only valid for position-free faults.
 pub fn shrink_statement(st: &Statement) -> Vec<(Statement, Option<At>)> {
     let mut out: Vec<(Statement, Option<At>)> = vec![];
-    // delete ops, last first (later ops have fewer dependants)
+    let n = st.ops.len();
+    // chunks of contiguous top-level ops: n/2, n/4, ... down to 2
+    let mut size = n / 2;
+    while size >= 2 {
+        let mut start = n.saturating_sub(size);
+        let mut tried = 0;
+        loop {
+            let chunk: Vec<At> = (start..std::cmp::min(n, start + size)).map(|i| (i, None)).collect();
+            if let Some(s) = remove_ops(st, &chunk) {
+                out.push((s, None));
+            }
+            tried += 1;
+            if start == 0 || tried >= 8 {
+                break;
+            }
+            start = start.saturating_sub(size);
+        }
+        size /= 2;
+    }
+    // single ops, last first (later ops have fewer dependants)
     let mut order = exec_order(st);
     order.reverse();
-    for at in order {
-        if let Some(s) = remove_op(st, at) {
-            out.push((s, Some(at)));
+    for at in order.iter().take(80) {
+        if let Some(s) = remove_op(st, *at) {
+            out.push((s, Some(*at)));
         }
     }
-    // drop empty blocks
-    for (i, op) in st.ops.iter().enumerate() {
-        if matches!(op, Op::Randomized(b) if b.is_empty()) {
-            let mut s = st.clone();
-            s.ops.remove(i);
-            out.push((s, Some((i, None))));
+    // whole (possibly non-empty) blocks
+    for (i, op) in st.ops.iter().enumerate().rev().take(8) {
+        if matches!(op, Op::Randomized(_)) {
+            if let Some(s) = remove_ops(st, &[(i, None)]) {
+                out.push((s, Some((i, None))));
+            }
         }
     }
     // context
@@ -298,20 +336,25 @@ pub fn shrink_statement(st: &Statement) -> Vec<(Statement, Option<At>)> {
         s.bases = Bases::Default;
         out.push((s, None));
     }
-    // simplify single ops
-    for at in exec_order(st) {
-        for nv in op_variants(get_op(st, at)) {
-            let mut s = st.clone();
-            match at.1 {
-                None => s.ops[at.0] = nv,
-                Some(j) => {
-                    if let Op::Randomized(b) = &mut s.ops[at.0] {
-                        b[j] = nv;
+    // simplify single ops (only worth it once the program is small)
+    if exec_order(st).len() <= 40 {
+        for at in exec_order(st) {
+            for nv in op_variants(get_op(st, at)).into_iter().take(6) {
+                let mut s = st.clone();
+                match at.1 {
+                    None => s.ops[at.0] = nv,
+                    Some(j) => {
+                        if let Op::Randomized(b) = &mut s.ops[at.0] {
+                            b[j] = nv;
+                        }
                     }
                 }
-            }
-            if valid_statement(&s) {
-                out.push((s, None));
+                if valid_statement(&s) {
+                    out.push((s, None));
+                }
+                if out.len() > 250 {
+                    return out;
+                }
             }
         }
     }
@@ -352,9 +395,11 @@ pub fn minimise(
 ) -> (Value, usize) {
     let mut cur = case;
     let mut used = 0usize;
+    let t0 = std::time::Instant::now();
     'outer: loop {
         for cand in shrink(&cur) {
-            if used >= budget {
+            // bounded in re-executions and in wall-clock (a harness backstop)
+            if used >= budget || t0.elapsed().as_secs() > 30 {
                 break 'outer;
             }
             used += 1;
